@@ -77,6 +77,12 @@ static const Tmpl TM[] = {
     {true, "2001:db8::1", "2001:db8::2", 1000, 80, {0xfffffffeu, 777u}, "v6"},
     {true, "102:304::", "202:202::", 1000, 80, {31337u, 4242u}, "v6-zero-padded-v4-bytes"},
     {true, "::ffff:1.2.3.4", "::ffff:2.2.2.2", 1000, 80, {99u, 0x80000000u}, "v6-v4-mapped"},
+    // direction can only be told by the ADDRESS (client port == server port) ...
+    {false, "10.0.0.1", "10.0.0.2", 5060, 5060, {2000u, 6000u}, "v4-equal-ports"},
+    {true, "2001:db8::b", "2001:db8::a", 5060, 5060, {0xffffffffu, 10u}, "v6-equal-ports"},
+    // ... or only by the PORT (same host on both sides, loopback style)
+    {false, "10.0.0.9", "10.0.0.9", 40000, 8080, {300u, 0xfffffffeu}, "v4-same-host"},
+    {true, "2001:db8::9", "2001:db8::9", 1000, 8080, {555u, 8888u}, "v6-same-host"},
 };
 struct Pair { int a, b; int alias; };   // alias 1: b's addresses are a's v4 bytes zero-padded (known StreamIdentifier aliasing)
 static std::vector<Pair> pairs() {
@@ -84,6 +90,11 @@ static std::vector<Pair> pairs() {
     for (int a = 0; a < 6; ++a)
         for (int b = a + 1; b < 6; ++b) v.push_back(Pair{a, b, (a == 0 && b == 5) ? 1 : 0});
     v.push_back(Pair{0, 6, 0});
+    // appended later (pair indices above are referenced by committed replay files): the base v4 template with each
+    // "one-dimensional" template, and the two kinds together per family
+    for (int b = 7; b <= 10; ++b) v.push_back(Pair{0, b, 0});
+    v.push_back(Pair{7, 9, 0});
+    v.push_back(Pair{8, 10, 0});
     return v;
 }
 static const int NMODE = 4;   // bit0: follow partial streams; bit1: scaled-down buffer limits + explicit 10 s keep-alive
@@ -819,7 +830,7 @@ int main(int argc, char** argv) {
     for (int i = 1; i + 1 < argc; ++i) if (std::string(argv[i]) == "--stage") g_fast_stage = std::string(argv[i + 1]) == "fast";
     bool thorough = false;
     for (int i = 1; i + 1 < argc; ++i) if (std::string(argv[i]) == "--tier") thorough = std::string(argv[i + 1]) == "thorough";
-    // pairs explored by this stage: all 16, except the deep plain-build stage of the quick tier: the 6 pairs that contain template 0
+    // pairs explored by this stage: all 22, except the deep plain-build stage of the quick tier: the 10 pairs that contain template 0
     std::vector<int> jp;
     for (int i = 0; i < (int)pairs().size(); ++i) if (thorough || !g_fast_stage || pairs()[i].a == 0) jp.push_back(i);
     const int npairs = (int)jp.size();
